@@ -151,15 +151,27 @@ pub fn run_table(case: &ApiCase) -> Vec<(String, String, String, R)> {
     let must = |cond: bool| if cond { Expect::MustErr } else { Expect::Total };
     let either = |p: Expect, q: Expect| if p == Expect::MustErr || q == Expect::MustErr { Expect::MustErr } else { Expect::Total };
 
+    // the functions that return *every* shortest path need time and memory proportional to the
+    // total length of those paths: on medium-sized graphs they are only called for the shapes with
+    // few shortest paths per pair (random sparse, path, cycle, star, triangles, chained cycles),
+    // and the quadratic all-pairs tables only up to 60 nodes
+    let path_safe = n <= 34 || matches!(case.g.shape, 0 | 1 | 2 | 3 | 7 | 8);
+    let pairs_safe = n <= 60 && path_safe;
+
+    let trace = std::env::var("VERIF_C20_TRACE").is_ok();
     let mut calls: Vec<Call> = vec![];
     macro_rules! call {
         ($name:expr, $expect:expr, $why:expr, $body:expr) => {{
             graphrs::verif::set_step_budget(Some(crate::props::c13::STEP_BUDGET));
+            let t0 = std::time::Instant::now();
             let r = match guard(|| $body) {
                 Ok(r) => r,
                 Err(p) => R::Panic(p),
             };
             graphrs::verif::set_step_budget(None);
+            if trace {
+                eprintln!("  {} {:.3}s", $name, t0.elapsed().as_secs_f64());
+            }
             calls.push(Call { name: $name, expect: $expect, why: $why, r });
         }};
     }
@@ -223,14 +235,23 @@ pub fn run_table(case: &ApiCase) -> Vec<(String, String, String, R)> {
     call!("ensure_weighted", must(!weighted && !ng.edges.is_empty()), "unweighted edges", res(g.ensure_weighted(), |_| (json!(null), vec![])));
     // ---------------- shortest paths
     for w in if weighted { vec![false, true] } else { vec![false] } {
+        if path_safe {
         call!("single_source", e_name, "absent source", res(dijkstra::single_source(g, w, a.clone(), None, None, false, true), |m| sp_val(&m)));
-        if have_nodes {
-            call!("single_source[target]", e_name, "absent target", res(dijkstra::single_source(g, w, x.clone(), Some(a.clone()), Some(3.0), true, true), |m| sp_val(&m)));
-            call!("all_pairs[target]", e_name, "absent target", res(dijkstra::all_pairs(g, w, Some(a.clone()), None, false, true), |m| (json!(m.len()), vec![])));
-            call!("multi_source[target]", e_name, "absent target", res(dijkstra::multi_source(g, w, vec![x.clone(), y.clone()], Some(a.clone()), None, false, false), |m| (json!(m.len()), vec![])));
-            call!("get_all_shortest_paths_involving", Expect::Total, "", R::Val(json!(dijkstra::get_all_shortest_paths_involving(g, x.clone(), w).len()), vec![]));
         }
+        if have_nodes && path_safe {
+            call!("single_source[target]", e_name, "absent target", res(dijkstra::single_source(g, w, x.clone(), Some(a.clone()), Some(3.0), true, true), |m| sp_val(&m)));
+            if pairs_safe {
+            call!("all_pairs[target]", e_name, "absent target", res(dijkstra::all_pairs(g, w, Some(a.clone()), None, false, true), |m| (json!(m.len()), vec![])));
+            }
+            call!("multi_source[target]", e_name, "absent target", res(dijkstra::multi_source(g, w, vec![x.clone(), y.clone()], Some(a.clone()), None, false, false), |m| (json!(m.len()), vec![])));
+            if pairs_safe {
+            call!("get_all_shortest_paths_involving", Expect::Total, "", R::Val(json!(dijkstra::get_all_shortest_paths_involving(g, x.clone(), w).len()), vec![]));
+            }
+        }
+        if path_safe {
         call!("multi_source", e_subset, "absent source", res(dijkstra::multi_source(g, w, subset_chan.clone(), None, None, false, true), |m| (json!(m.keys().cloned().collect::<BTreeSet<_>>()), vec![])));
+        }
+        if pairs_safe {
         call!("all_pairs", Expect::Total, "", res(dijkstra::all_pairs(g, w, None, None, false, false), |m| {
             let mut ks: Vec<&String> = m.keys().collect();
             ks.sort();
@@ -240,6 +261,7 @@ pub fn run_table(case: &ApiCase) -> Vec<(String, String, String, R)> {
             }
             (json!(ks), fl)
         }));
+        }
         // zero weights (of either sign) are valid for the shortest-path functions only
         if w && case.g.wmode == 2 {
             continue;
@@ -366,7 +388,7 @@ impl Prop for C20 {
         "C20"
     }
     fn rule(&self) -> String {
-        "a table of about 100 calls covering every public function of the crate (queries, degrees, density, matrix, convert, subgraph, ensure, Dijkstra x4, centralities x4, cluster x6, partitions, Louvain x2, components x6, generators, GraphML) is executed on every case: all 8 kinds x (exhaustive block: every graph on <= 3 nodes with at most one edge per pair, plus explicit parallel-edge and self-loop shapes) and random graphs with n in 0..=7 (sparse, so isolated / degree-one nodes and disconnected graphs dominate), arguments drawn from the graph's own names by a selector (one case in 64 additionally calls fast_gnp_random_graph with a node count from {300, ..., 32768, 46341, 46342, 65536, 100000} and p = 1e-7); with absent = true the functions that have an error channel are given a name that is not in the graph. Each call runs under catch_unwind with the Louvain step budget and the watchdog, in the checked profile (overflow checks + debug assertions) and, through a worker process, in the release profile. Oracle: no panic and no hang in either profile; absent name => Err/None; unsupported kind of graph (the WrongMethod clauses of C02, C09, C10, C11, C15, eigenvector on multi-edge graphs) => Err; outcome kinds equal and values equal (floats within 1e-9) between the two profiles. Non-trivial = the graph has a degenerate feature (no node, no edge, an isolated or degree-one node, a self-loop, a parallel edge or >= 2 components); distinct = distinct serialised case.".into()
+        "a table of about 100 calls covering every public function of the crate (queries, degrees, density, matrix, convert, subgraph, ensure, Dijkstra x4, centralities x4, cluster x6, partitions, Louvain x2, components x6, generators, GraphML) is executed on every case: all 8 kinds x (exhaustive block: every graph on <= 3 nodes with at most one edge per pair, plus explicit parallel-edge and self-loop shapes) and random graphs with n in 0..=7 (sparse, so isolated / degree-one nodes and disconnected graphs dominate) plus, one case in 150, a medium-sized graph (21..=255 nodes, mostly one of ten structured shapes incl. layered graphs with more than 2^64 equally short paths, grids, cliques, circulants; the functions that return every shortest path are skipped where their output would be exponential), arguments drawn from the graph's own names by a selector (one case in 64 additionally calls fast_gnp_random_graph with a node count from {300, ..., 32768, 46341, 46342, 65536, 100000} and p = 1e-7); with absent = true the functions that have an error channel are given a name that is not in the graph. Each call runs under catch_unwind with the Louvain step budget and the watchdog, in the checked profile (overflow checks + debug assertions) and, through a worker process, in the release profile. Oracle: no panic and no hang in either profile; absent name => Err/None; unsupported kind of graph (the WrongMethod clauses of C02, C09, C10, C11, C15, eigenvector on multi-edge graphs) => Err; outcome kinds equal and values equal (floats within 1e-9) between the two profiles. Non-trivial = the graph has a degenerate feature (no node, no edge, an isolated or degree-one node, a self-loop, a parallel edge or >= 2 components); distinct = distinct serialised case.".into()
     }
     fn assumptions(&self) -> Vec<String> {
         vec![
@@ -415,7 +437,19 @@ impl Prop for C20 {
         fn me(n: usize) -> usize {
             n + 1
         }
-        (graph_strategy(&ALL_KINDS, 0, 7, me, &[0, 1, 1, 2], 3), prop_oneof![8 => any::<u64>(), 1 => prop::sample::select(vec![0u64, 1, u64::MAX, u64::MAX - 1, u64::MAX - 7, 1 << 63, (1 << 32) - 1, 1 << 32])], prop::bool::weighted(0.3)).prop_map(|(g, sel, absent)| ApiCase { g, sel, absent }).boxed()
+        fn few(_n: usize) -> usize {
+            4
+        }
+        // medium-sized, mostly structured graphs (paths, cycles, stars, cliques, grids, layered
+        // graphs with astronomically many equally short paths, circulants): valid inputs too
+        // (the dense shapes are capped at 40 nodes: the table holds several cubic-time functions)
+        let medium = graph_strategy(&ALL_KINDS, 21, 255, few, &[0, 1], 9).prop_map(|mut g| {
+            if matches!(g.shape, 4 | 5) {
+                g.n = g.n.min(40);
+            }
+            g
+        });
+        (prop_oneof![150 => graph_strategy(&ALL_KINDS, 0, 7, me, &[0, 1, 1, 2], 3), 1 => medium], prop_oneof![8 => any::<u64>(), 1 => prop::sample::select(vec![0u64, 1, u64::MAX, u64::MAX - 1, u64::MAX - 7, 1 << 63, (1 << 32) - 1, 1 << 32])], prop::bool::weighted(0.3)).prop_map(|(g, sel, absent)| ApiCase { g, sel, absent }).boxed()
     }
     fn case_timeout_s(&self) -> u64 {
         60
